@@ -1,8 +1,185 @@
-(* C03 -- statements only. *)
+(* C03 -- slicing, joining, stacking and atom subsetting act like numpy indexing on every field, hand out no
+   shared memory where the property forbids it, and no history leaves the RMSD cache stale.
+   Only statements, closed by [exact], and Print Assumptions.  Model: MD.Traj.Model (anchors there).
+
+   Reading guide.  [frames w t] are the symbolic coordinates of register t in world w, [a_val (tm t)] its times,
+   [ul]/[ua] its unit-cell lengths/angles; [sel d l idx] is numpy's l[idx] for an index list, [key_positions n k]
+   the index list numpy uses for key k on an axis of length n (CPython slice.indices, negative indices, masks).
+   [wf w]: every register's xyz view points at distinct existing positions of an existing buffer and mentions only
+   identities already handed out; it holds initially and after every step (run_wf). *)
 From Coq Require Import List Arith ZArith Bool.
 Import ListNotations.
-Require Import MD.Traj.Model MD.Traj.Proofs.
+Require Import MD.Traj.Model MD.Traj.Lists MD.Traj.Proofs.
 
-Theorem cache_inv_current_refuted_slice : exists t, nth_error (trajs w_d1) 1 = Some t /\ cache_ok w_d1 t = false.
-Proof. exact d1_witness. Qed.
-Print Assumptions cache_inv_current_refuted_slice.
+(* ---- numpy index semantics used by the specifications *)
+Theorem key_positions_in_range : forall n k idx s,
+  key_positions n k = inr (idx, s) -> Forall (fun p => p < n) idx.
+Proof. exact key_positions_lt. Qed.
+Print Assumptions key_positions_in_range.
+
+Theorem slice_positions_distinct_in_range : forall n a b c idx,
+  slice_indices n a b c = Some idx -> Forall (fun p => p < n) idx /\ NoDup idx.
+Proof. exact slice_indices_spec. Qed.
+Print Assumptions slice_positions_distinct_in_range.
+
+(* ---- t[key] / t.slice(key, copy): every field is indexed with the same key, as numpy would *)
+Theorem getitem_spec : forall v w r k copy w' t,
+  wf w -> nth_error (trajs w) r = Some t -> step v w (OSlice r k copy) = (w', ROk) ->
+  exists t' xi xs,
+    key_positions (nframes t) k = inr (xi, xs) /\
+    trajs w' = trajs w ++ [t'] /\ hext w w' /\
+    frames w' t' = sel dfr (frames w t) xi /\
+    (exists ti s, key_positions (length (a_val (tm t))) k = inr (ti, s) /\ a_val (tm t') = sel (TAr 0) (a_val (tm t)) ti) /\
+    cell_sliced k (ul t) (ul t') /\ cell_sliced k (ua t) (ua t') /\
+    na t' = na t /\ chains t' = chains t /\ lengths_ok t' = true /\
+    reg_ok w' t' /\ traces_sliced v k w (tr t) (tr t') /\
+    (copy = true -> fresh_reg w t').
+Proof. exact slice_ok. Qed.
+Print Assumptions getitem_spec.
+
+(* ---- t.join(others) / t + o : concatenation of every field, in operand order *)
+Theorem join_spec : forall v w r others ct w',
+  wf w -> step v w (OJoin r others ct) = (w', ROk) ->
+  exists t os t', nth_error (trajs w) r = Some t /\ get_all w others = Some os /\ join_post w t os w' t'.
+Proof. exact join_step_ok. Qed.
+Print Assumptions join_spec.
+
+Theorem mdjoin_spec : forall v w rs w',
+  wf w -> step v w (OMdJoin rs) = (w', ROk) ->
+  exists t o rest t', get_all w rs = Some (t :: o :: rest) /\ join_post w t (o :: rest) w' t'.
+Proof. exact mdjoin_step_ok. Qed.
+Print Assumptions mdjoin_spec.
+
+(* ---- t.stack(o): coordinates hstacked frame by frame; time and cell are the left operand's (the same arrays,
+        or a contiguous copy of a Fortran-ordered cell array) *)
+Theorem stack_spec : forall w r r' t o w',
+  wf w -> nth_error (trajs w) r = Some t -> nth_error (trajs w) r' = Some o -> do_stack w r r' = (w', ROk) ->
+  exists t',
+    trajs w' = trajs w ++ [t'] /\ hext w w' /\
+    frames w' t' = zip_stk (frames w t) (frames w o) /\
+    tm t' = tm t /\ cell_passed w (ul t) (ul t') /\ cell_passed w (ua t) (ua t') /\
+    na t' = na t + na o /\ chains t' = chains t ++ chains o /\
+    tr t' = None /\ lengths_ok t' = true /\ reg_ok w' t' /\
+    length (hx w) <= xb t' /\ ntop w <= tloc t' /\ nframes t = nframes o.
+Proof. exact stack_ok. Qed.
+Print Assumptions stack_spec.
+
+(* ---- atom_slice: numpy take on the atom axis of every frame; other fields copied (inplace=False) or kept *)
+Theorem atom_slice_spec : forall v w r idx t w',
+  wf w -> nth_error (trajs w) r = Some t -> do_atom_slice v w r idx false = (w', ROk) ->
+  exists t' ni,
+    norm_indices (na t) idx = Some ni /\
+    trajs w' = trajs w ++ [t'] /\ hext w w' /\
+    frames w' t' = map (Sub ni) (frames w t) /\
+    a_val (tm t') = a_val (tm t) /\ cell_copied w t t' /\
+    na t' = length ni /\ chains t' = subset_chains 0 (chains t) idx /\
+    tr t' = None /\ lengths_ok t' = true /\ reg_ok w' t' /\ fresh_reg w t'.
+Proof. exact atom_slice_new_ok. Qed.
+Print Assumptions atom_slice_spec.
+
+Theorem atom_slice_inplace_spec : forall v w r idx t w',
+  wf w -> nth_error (trajs w) r = Some t -> do_atom_slice v w r idx true = (w', ROk) ->
+  exists t' ni,
+    norm_indices (na t) idx = Some ni /\
+    trajs w' = set_nth r t' (trajs w) /\ hext w w' /\
+    frames w' t' = map (Sub ni) (frames w t) /\
+    tm t' = tm t /\ ul t' = ul t /\ ua t' = ua t /\
+    na t' = length ni /\ chains t' = subset_chains 0 (chains t) idx /\
+    tr t' = (if aslice_inplace_resets v then None else tr t) /\
+    nframes t' = nframes t /\ reg_ok w' t' /\ length (hx w) <= xb t'.
+Proof. exact atom_slice_inplace_ok. Qed.
+Print Assumptions atom_slice_inplace_spec.
+
+(* ---- a refused operation changes nothing (the one exception, a superpose that raises after centring in
+        place, is modelled and covered by run_wf / the cache theorem) *)
+Theorem refused_slice_changes_nothing : forall v w r k copy w' e, do_slice v w r k copy = (w', RErr e) -> w' = w.
+Proof. exact slice_err. Qed.
+Print Assumptions refused_slice_changes_nothing.
+
+(* ---- well-formedness is an invariant of every history, in both variants *)
+Theorem wf_inv : forall v sps ops, wf (fst (run v (init_world sps) ops)).
+Proof. intros v sps ops. exact (run_wf v ops _ (init_wf sps)). Qed.
+Print Assumptions wf_inv.
+
+(* ---- all per-frame fields keep equal lengths in every reachable state (xyz assignment is the one unchecked
+        setter, so histories must keep the number of frames when assigning xyz) *)
+Theorem lengths_inv : forall v sps ops,
+  guarded xyz_guard v (init_world sps) ops = true -> lens (fst (run v (init_world sps) ops)).
+Proof. exact run_lens_init. Qed.
+Print Assumptions lengths_inv.
+
+Theorem lengths_inv_from : forall v ops w,
+  wf w -> lens w -> guarded xyz_guard v w ops = true -> lens (fst (run v w ops)).
+Proof. exact run_lens. Qed.
+Print Assumptions lengths_inv_from.
+
+Theorem lengths_guard_needed :
+  lensb (fst (run v_fix (init_world specs1) [OSetXyzNew 0 5 3])) = false /\
+  snd (run v_fix (init_world specs1) [OSetXyzNew 0 5 3]) = [ROk].
+Proof. exact xyz_assignment_unchecked. Qed.
+Print Assumptions lengths_guard_needed.
+
+(* ---- results never share coordinate memory with an input (every op that returns a new object, except
+        slice(copy=False)) *)
+Theorem fresh_xyz : forall v w o w',
+  wf w -> makes_new_xyz o = true -> step v w o = (w', ROk) ->
+  exists t', trajs w' = trajs w ++ [t'] /\
+             forall t, In t (trajs w) -> xb t <> xb t' /\ overlap (xb t') (xp t') (xb t) (xp t) = false.
+Proof. exact step_fresh_xyz. Qed.
+Print Assumptions fresh_xyz.
+
+(* ---- slice(copy=True), join, md.join, atom_slice(inplace=False), remove_solvent(inplace=False):
+        no array buffer (xyz, time, cell, traces) and no topology object in common with any existing trajectory *)
+Theorem no_shared_mutable : forall v w o w',
+  wf w -> makes_independent o = true -> step v w o = (w', ROk) ->
+  exists t', trajs w' = trajs w ++ [t'] /\ forall t, In t (trajs w) -> independent t t'.
+Proof. exact step_independent. Qed.
+Print Assumptions no_shared_mutable.
+
+(* ---- the cache invariant, repaired code: after EVERY finite history every trajectory's _rmsd_traces is absent or
+        holds, for each frame, the trace of that (centred) frame.  Guard: see Proofs.inplace_guard. *)
+Theorem cache_inv : forall sps ops,
+  guarded inplace_guard v_fix (init_world sps) ops = true -> cinv (fst (run v_fix (init_world sps) ops)).
+Proof. exact run_cinv_init. Qed.
+Print Assumptions cache_inv.
+
+Theorem cache_inv_from : forall ops w,
+  wf w -> cinv w -> guarded inplace_guard v_fix w ops = true -> cinv (fst (run v_fix w ops)).
+Proof. exact run_cinv. Qed.
+Print Assumptions cache_inv_from.
+
+(* consequently the precentred shortcut reads exactly what a from-scratch computation computes *)
+Theorem rmsd_precentered_eq : forall w t c,
+  tr t = Some c -> cache_ok w t = true ->
+  length (a_val c) = nframes t /\
+  forall i x, nth_error (frames w t) i = Some x -> nth_error (a_val c) i = Some (cen x) /\ cen x = x.
+Proof. exact precentered_reads_scratch. Qed.
+Print Assumptions rmsd_precentered_eq.
+
+(* ---- the code as found: the invariant fails although the guard holds *)
+Theorem cache_inv_slice_as_found_refuted :
+  guarded inplace_guard (mkVar false true) (init_world specs1) ops_d1 = true /\
+  cinvb (fst (run (mkVar false true) (init_world specs1) ops_d1)) = false.
+Proof. exact d1_refuted. Qed.
+Print Assumptions cache_inv_slice_as_found_refuted.
+
+Theorem cache_inv_atom_slice_inplace_as_found_refuted :
+  guarded inplace_guard (mkVar true false) (init_world specs1) ops_d2 = true /\
+  cinvb (fst (run (mkVar true false) (init_world specs1) ops_d2)) = false.
+Proof. exact d2_refuted. Qed.
+Print Assumptions cache_inv_atom_slice_inplace_as_found_refuted.
+
+(* ---- the guard cannot be dropped, even for the repaired code: writing through a shared xyz buffer *)
+Theorem cache_inv_without_guard_refuted :
+  guarded inplace_guard v_fix (init_world specs2) ops_alias = false /\
+  cinvb (fst (run v_fix (init_world specs2) ops_alias)) = false.
+Proof. exact alias_refuted. Qed.
+Print Assumptions cache_inv_without_guard_refuted.
+
+(* ---- non-vacuity: one history that satisfies both guards, succeeds at every step and uses every kind of op *)
+Example guarded_history_exists :
+  guarded inplace_guard v_fix (init_world specs1) ops_demo = true /\
+  guarded xyz_guard v_fix (init_world specs1) ops_demo = true /\
+  snd (run v_fix (init_world specs1) ops_demo) = [ROk; ROk; ROk; ROk; ROk; ROk; ROk; ROk; ROk; ROk; ROk].
+Proof. exact demo_guards. Qed.
+Print Assumptions guarded_history_exists.
